@@ -559,6 +559,9 @@ func H_C05_TwoWriters() {
 		first()
 		second()
 	}
+	// natively the flusher goroutine must be idle before the directory is copied (a copy taken while it writes
+	// is not the image of any kill)
+	h.runPendingNative()
 	live, lerr := h.db.GetBytes(key)
 	vrt.Assert(lerr == nil || errors.Is(lerr, ErrNotFound), "writers/read-no-error")
 	h.ref[0].val, h.ref[0].present = live, lerr == nil
